@@ -22,12 +22,33 @@ package main
 // Writes are done one at a time; what the tap records between the call and the arrival of
 // the expected number of packets (or a timeout) is attributed to the call.
 //
+// Entry "multicast" (transport "mcast"): ServerStream.WritePacketRTP/RTCP on a stream whose only
+// reader set it up with multicast delivery (library Client, Protocol = ProtocolUDPMulticast;
+// RTP/SAVP + MIKEY when secure: the library does protect multicast with the stream's outbound
+// context, server_stream.go hands ssm.srtpOutCtx to the multicast writer). These scenarios run
+// on their own server, listening on a multicast-capable interface address. The multicast
+// writer's sockets are NOT created through Server.ListenPacket (pkg/multicast NewMultiConn
+// ignores that argument and opens raw sockets with syscall.Socket), so a tap cannot wrap them:
+// the datagrams are observed on the RECEIVING side, by sockets of the driver that are bound to
+// every (group, port) the SETUP responses announced and joined on every multicast interface
+// (64 KiB read buffers: an oversize datagram is seen whole). The server writes one copy per
+// multicast interface; the number of copies per write is measured with a small calibration
+// packet before the cases start.
+//
+// Shapes: every case carries the shape of the packet that reaches the requested plain size -
+// RTP: payload only / 1-3 CSRCs / one-byte header extension / padding / extension + padding;
+// RTCP: one packet / SR + SDES (+ APP) compound / RR with report blocks + SDES (+ APP) compound /
+// raw bytes of exactly the requested size; structured RTCP sizes are multiples of 4, other
+// requested sizes are rounded down or up ("round"). The quick tier samples one shape per case
+// from the scenario seed, the thorough tier runs every shape. Shape and rounding are part of
+// the replay descriptor and of the "write" event.
+//
 // A master key identifier (mki=true) is only ever used by the library for a CLIENT's
 // outbound context, in "Axis client-managed keys" mode, which a client enters when SETUP is
 // answered 463 "Key Management Failure": the mki groups run a server whose handler refuses
 // the first SETUP of every session that way. The server's outbound contexts never carry an
-// MKI (server_session.go, server_stream_media.go): mki cases for "session" / "stream" are
-// skipped (counted in DRIVER-STAT skipped_mki).
+// MKI (server_session.go, server_stream_media.go): PacketSize.tla does not generate mki cases for
+// "session" / "stream" / "multicast"; any that appear are skipped (DRIVER-STAT skipped_mki).
 
 import (
 	"context"
@@ -44,6 +65,7 @@ import (
 	"strings"
 	"sync"
 	"sync/atomic"
+	"syscall"
 	"time"
 
 	"github.com/bluenviron/gortsplib/v5"
@@ -69,6 +91,10 @@ type c18case struct {
 	Plain  int    `json:"plain"`
 	Fits   bool   `json:"fits"`
 	Wire   int    `json:"wire"`
+	// Shape of the packet (c18rtpShapes / c18rtcpShapes); empty: sampled from the scenario seed.
+	Shape string `json:"shape,omitempty"`
+	// Round: structured RTCP shapes when Plain is not a multiple of 4: "down" | "up".
+	Round string `json:"round,omitempty"`
 }
 
 // c18scn is one trace (and the replay descriptor).
@@ -79,17 +105,28 @@ type c18scn struct {
 	Secure    bool      `json:"secure"`
 	MKI       bool      `json:"mki"`
 	Entry     string    `json:"entry"`
-	Transport string    `json:"transport"` // "udp" | "tcp" | "udp+tcp" (stream)
+	Transport string    `json:"transport"` // "udp" | "tcp" | "udp+tcp" (stream) | "mcast" (multicast)
 	Seed      int64     `json:"seed"`
 	Cases     []c18case `json:"cases"`
 }
 
 type c18stats struct {
 	writes, drift, late, trunc, noshow, reconnects, failed, sent, over atomic.Int64
+	mcast, mcastSent, reshaped                                        atomic.Int64
 
 	mu      sync.Mutex
 	driftBy map[string]int    // class -> count
 	driftEx map[string]string // class -> smallest example
+	shapeBy map[string]int    // kind/shape actually written -> count
+}
+
+func (st *c18stats) addShape(kind, shape string) {
+	st.mu.Lock()
+	if st.shapeBy == nil {
+		st.shapeBy = map[string]int{}
+	}
+	st.shapeBy[kind+"/"+shape]++
+	st.mu.Unlock()
 }
 
 func (st *c18stats) addDrift(class, example string) {
@@ -115,6 +152,9 @@ func driveC18(a *args, s *vt.Sink) error {
 	// the server logs decode errors of inbound packets (our RTCP raw packets are opaque bytes)
 	log.SetOutput(io.Discard)
 	defer log.SetOutput(os.Stderr)
+	if err := c18selfcheck(); err != nil {
+		return err
+	}
 	if a.replay != "" {
 		var sc c18scn
 		if err := json.Unmarshal([]byte(a.replay), &sc); err != nil {
@@ -189,7 +229,7 @@ func driveC18(a *args, s *vt.Sink) error {
 	var all [][]*c18scn
 	for gi, k := range keys {
 		var scns []*c18scn
-		for _, entry := range []string{"stream", "session", "client"} {
+		for _, entry := range []string{"stream", "session", "client", "multicast"} {
 			cs := groups[k][entry]
 			if len(cs) == 0 {
 				continue
@@ -201,12 +241,19 @@ func driveC18(a *args, s *vt.Sink) error {
 				return cs[i].Kind < cs[j].Kind
 			})
 			trs := []string{"udp", "tcp"}
-			if entry == "stream" {
+			switch entry {
+			case "stream":
 				trs = []string{"udp+tcp"}
+			case "multicast":
+				trs = []string{"mcast"}
 			}
 			for ti, t := range trs {
+				seed := a.seed*1000003 + int64(gi)*101 + int64(ti)
+				if entry == "multicast" {
+					seed += 7
+				}
 				scns = append(scns, &c18scn{Max: k.max, Secure: k.secure, MKI: k.mki, Entry: entry, Transport: t,
-					Seed: a.seed*1000003 + int64(gi)*101 + int64(ti), Cases: cs})
+					Seed: seed, Cases: c18shapeCases(cs, seed, a.tier == "thorough")})
 			}
 		}
 		all = append(all, scns)
@@ -244,6 +291,15 @@ func driveC18(a *args, s *vt.Sink) error {
 func c18printStats(st *c18stats, ncases, skipped int) {
 	fmt.Printf("DRIVER-STAT cases=%d skipped_mki=%d writes=%d failed=%d sent=%d\n", ncases, skipped,
 		st.writes.Load(), st.failed.Load(), st.sent.Load())
+	fmt.Printf("DRIVER-STAT multicast_writes=%d\n", st.mcast.Load())
+	fmt.Printf("DRIVER-STAT multicast_sent=%d\n", st.mcastSent.Load())
+	var shapes []string
+	for k, n := range st.shapeBy {
+		shapes = append(shapes, fmt.Sprintf("%s:%d", k, n))
+	}
+	sort.Strings(shapes)
+	fmt.Printf("DRIVER-STAT shapes=%s\n", strings.Join(shapes, ","))
+	fmt.Printf("DRIVER-STAT reshaped=%d\n", st.reshaped.Load()) // no room for the requested shape: a simpler one was written
 	fmt.Printf("DRIVER-STAT model_drift=%d\n", st.drift.Load())
 	var classes []string
 	for k := range st.driftBy {
@@ -253,8 +309,14 @@ func c18printStats(st *c18stats, ncases, skipped int) {
 	for _, k := range classes {
 		fmt.Printf("DRIVER-STAT model_drift_class %s n=%d e.g. %s\n", k, st.driftBy[k], st.driftEx[k])
 	}
-	fmt.Printf("DRIVER-STAT over_max=%d truncated_frames=%d late_packets=%d noshow=%d reconnects=%d\n",
-		st.over.Load(), st.trunc.Load(), st.late.Load(), st.noshow.Load(), st.reconnects.Load())
+	// one value per line: vcheck copies those into the evidence file
+	for _, kv := range []struct {
+		k string
+		v int64
+	}{{"over_max", st.over.Load()}, {"truncated_frames", st.trunc.Load()}, {"late_packets", st.late.Load()},
+		{"noshow", st.noshow.Load()}, {"reconnects", st.reconnects.Load()}} {
+		fmt.Printf("DRIVER-STAT %s=%d\n", kv.k, kv.v)
+	}
 }
 
 // ---- part 1: start-up validation ----------------------------------------------------------
@@ -292,28 +354,152 @@ func c18start(s *vt.Sink) {
 	tr.Emit("end")
 }
 
-// ---- packets of an exact plain size ----------------------------------------------------------
+// ---- packets of an exact plain size, in several shapes ---------------------------------------
 
-// c18rtp builds an RTP packet whose marshalled size is n (n >= 12). variant 1 adds CSRCs,
-// variant 2 a one-byte header extension and padding, when there is room.
-func c18rtp(n int, pt uint8, variant int, seq uint16, ts uint32, rng *rand.Rand) *rtp.Packet {
-	pkt := &rtp.Packet{Header: rtp.Header{Version: 2, PayloadType: pt, SequenceNumber: seq, Timestamp: ts,
-		SSRC: 0x1234ABCD, Marker: seq%3 == 0}}
-	switch variant {
-	case 1:
-		if k := 1 + int(seq%3); n >= 12+4*k+1 {
+var (
+	c18rtpShapes  = []string{"payload", "csrc1", "csrc2", "csrc3", "ext", "pad", "extpad"}
+	c18rtcpShapes = []string{"single", "compound", "rrcompound", "raw"}
+)
+
+// c18shapeCases returns a copy of cs in which every case has a shape. all = false: cases
+// without a shape get one sampled from the seed (a requested RTCP size that is not a multiple
+// of 4 is written exactly, "raw", half of the time, and rounded down or up otherwise);
+// all = true: every such case is replaced by one case per shape (and per rounding direction).
+func c18shapeCases(cs []c18case, seed int64, all bool) []c18case {
+	rs := rand.New(rand.NewSource(seed ^ 0x5ca1ab1e))
+	out := make([]c18case, 0, len(cs))
+	for _, c := range cs {
+		if c.Shape != "" {
+			out = append(out, c)
+			continue
+		}
+		odd := c.Kind == "rtcp" && c.Plain%4 != 0
+		switch {
+		case !all && c.Kind == "rtp":
+			c.Shape = c18rtpShapes[rs.Intn(len(c18rtpShapes))]
+			out = append(out, c)
+		case !all:
+			c.Shape = c18rtcpShapes[rs.Intn(len(c18rtcpShapes))]
+			if odd {
+				if rs.Intn(2) == 0 {
+					c.Shape = "raw"
+				} else {
+					c.Shape = c18rtcpShapes[rs.Intn(3)]
+				}
+			}
+			if odd && c.Shape != "raw" {
+				c.Round = []string{"down", "up"}[rs.Intn(2)]
+			}
+			out = append(out, c)
+		case c.Kind == "rtp":
+			for _, sh := range c18rtpShapes {
+				c.Shape = sh
+				out = append(out, c)
+			}
+		default:
+			for _, sh := range c18rtcpShapes {
+				c.Shape, c.Round = sh, ""
+				if odd && sh != "raw" {
+					for _, r := range []string{"down", "up"} {
+						c.Round = r
+						out = append(out, c)
+					}
+					continue
+				}
+				out = append(out, c)
+			}
+		}
+	}
+	return out
+}
+
+// c18rtp builds an RTP packet whose marshalled size is exactly n (n >= 12) in the given shape:
+//
+//	payload  12-byte header + payload
+//	csrcK    K contributing sources (4 bytes each)
+//	ext      header extension, one-byte profile (0xBEDE), one or two elements
+//	pad      Padding bit + PaddingSize trailing bytes (1..255)
+//	extpad   both
+//
+// When n leaves no room for the shape a simpler one is built; the shape built is returned.
+func c18rtp(n int, pt uint8, shape string, seq uint16, ts uint32, rng *rand.Rand) (*rtp.Packet, string) {
+	mk := func() *rtp.Packet {
+		return &rtp.Packet{Header: rtp.Header{Version: 2, PayloadType: pt, SequenceNumber: seq, Timestamp: ts,
+			SSRC: 0x1234ABCD, Marker: seq%3 == 0}}
+	}
+	pkt := mk()
+	built := "payload"
+	addExt := func() bool {
+		// 4 bytes of extension header + elements of 1 + len bytes, padded to a multiple of 4
+		l1 := 1 + rng.Intn(8)
+		two := rng.Intn(2) == 0
+		for try := 0; try < 2; try++ {
+			p := mk()
+			d := make([]byte, l1)
+			rng.Read(d)
+			_ = p.Header.SetExtension(1, d)
+			if two && try == 0 {
+				_ = p.Header.SetExtension(5, []byte{0xAA, 0xBB})
+			}
+			if p.Header.MarshalSize() <= n {
+				pkt = p
+				return true
+			}
+			l1, two = 1, false // smallest: 4 + 4 bytes
+		}
+		return false
+	}
+	addPad := func() bool {
+		room := n - pkt.Header.MarshalSize()
+		if room < 1 {
+			return false
+		}
+		if room > 255 {
+			room = 255
+		}
+		k := 1 + rng.Intn(room)
+		if rng.Intn(2) == 0 && k > 8 {
+			k = 1 + k%8 // short paddings as often as long ones
+		}
+		pkt.Header.Padding = true
+		pkt.Header.PaddingSize = byte(k)
+		return true
+	}
+	switch shape {
+	case "csrc1", "csrc2", "csrc3":
+		k := int(shape[4] - '0')
+		for ; k > 0; k-- {
+			if n >= 12+4*k {
+				break
+			}
+		}
+		if k > 0 {
 			for i := 0; i < k; i++ {
 				pkt.Header.CSRC = append(pkt.Header.CSRC, 0xC0000000+uint32(i))
 			}
+			built = fmt.Sprintf("csrc%d", k)
 		}
-	case 2:
-		if n >= 12+8+4+1 {
-			_ = pkt.Header.SetExtension(1, []byte{0xAA, 0xBB, 0xCC}) // 4 + (1+3) = 8 bytes
-			pkt.Header.Padding = true
-			pkt.Header.PaddingSize = byte(1 + seq%4)
+	case "ext":
+		if addExt() {
+			built = "ext"
+		}
+	case "pad":
+		if addPad() {
+			built = "pad"
+		}
+	case "extpad":
+		e := addExt()
+		p := addPad()
+		switch {
+		case e && p:
+			built = "extpad"
+		case e:
+			built = "ext"
+		case p:
+			built = "pad"
 		}
 	}
-	pl := n - pkt.MarshalSize()
+	pl := n - pkt.Header.MarshalSize() - int(pkt.Header.PaddingSize)
 	if pl < 0 {
 		pl = 0
 	}
@@ -322,51 +508,141 @@ func c18rtp(n int, pt uint8, variant int, seq uint16, ts uint32, rng *rand.Rand)
 	if pl > 0 {
 		pkt.Payload[0] = 0x41 // H264 non-IDR slice; opaque for Opus
 	}
-	return pkt
+	return pkt, built
 }
 
-// c18rtcp builds an RTCP packet. Plain RTCP sizes are multiples of 4: variants 0 and 1 round n
-// DOWN to a multiple of 4 (>= 8): 0 = one APP packet (or an empty receiver report for 8),
-// 1 = a compound SR + SDES(CNAME) + APP when there is room; variant 2 is an rtcp.RawPacket of
-// EXACTLY n bytes (valid header, APP type) - the library writes whatever Marshal returns.
-func c18rtcp(n int, variant int, rng *rand.Rand) (rtcp.Packet, int) {
+// c18rtcp builds an RTCP packet in the given shape:
+//
+//	single      one APP packet (an empty receiver report when the size is 8)
+//	compound    SenderReport + SourceDescription(CNAME) [+ APP]
+//	rrcompound  ReceiverReport with up to 3 report blocks + SourceDescription(CNAME) [+ APP]
+//	raw         an rtcp.RawPacket of EXACTLY n bytes (valid header, APP type) - the library
+//	            writes whatever Marshal returns
+//
+// Structured RTCP sizes are multiples of 4: when n is not, it is rounded down (round != "up")
+// or up to the nearest one (>= 8). The compound shapes reach the size exactly with the length
+// of the CNAME (+0 / +4 / +8) and the data of the trailing APP packet. The marshalled size and
+// the shape built (a simpler one when there is no room) are returned.
+func c18rtcp(n int, shape, round string, rng *rand.Rand) (rtcp.Packet, int, string) {
 	ssrc := uint32(0x0BADCAFE)
-	if variant == 2 && n >= 8 {
+	if shape == "raw" && n >= 8 {
 		b := make([]byte, n)
 		rng.Read(b)
 		b[0], b[1] = 0x80, 204
 		b[2], b[3] = byte((n/4-1)>>8), byte(n/4-1)
 		p := rtcp.RawPacket(b)
-		return &p, n
+		return &p, n, "raw"
 	}
 	n4 := n / 4 * 4
+	if n4 != n && round == "up" {
+		n4 += 4
+	}
 	if n4 < 8 {
 		n4 = 8
 	}
+	app := func(size int) rtcp.Packet { // size >= 12
+		data := make([]byte, size-12)
+		rng.Read(data)
+		return &rtcp.ApplicationDefined{SSRC: ssrc, Name: "VRIF", Data: data}
+	}
+	// tail fills `rem` bytes (a multiple of 4, >= 16) with a SourceDescription and, when there
+	// is room, an APP packet
+	tail := func(rem int) []rtcp.Packet {
+		cname := func(l int) rtcp.Packet { // 3 -> 16 bytes, 7 -> 20, 11 -> 24
+			return &rtcp.SourceDescription{Chunks: []rtcp.SourceDescriptionChunk{{Source: ssrc,
+				Items: []rtcp.SourceDescriptionItem{{Type: rtcp.SDESCNAME, Text: "c18@verif.example"[:l]}}}}}
+		}
+		if rem-16 >= 12 {
+			return []rtcp.Packet{cname(3), app(rem - 16)}
+		}
+		return []rtcp.Packet{cname(3 + rem - 16)}
+	}
 	var pkt rtcp.Packet
+	built := "single"
 	switch {
 	case n4 == 8:
 		pkt = &rtcp.ReceiverReport{SSRC: ssrc}
-	case variant == 1 && n4 >= 56:
-		data := make([]byte, n4-56)
-		rng.Read(data)
-		cp := rtcp.CompoundPacket{
-			&rtcp.SenderReport{SSRC: ssrc, NTPTime: 0x0102030405060708, RTPTime: 90000, PacketCount: 1, OctetCount: 100},
-			&rtcp.SourceDescription{Chunks: []rtcp.SourceDescriptionChunk{{Source: ssrc,
-				Items: []rtcp.SourceDescriptionItem{{Type: rtcp.SDESCNAME, Text: "c18"}}}}},
-			&rtcp.ApplicationDefined{SSRC: ssrc, Name: "VRIF", Data: data},
+	case shape == "compound" && n4 >= 28+16:
+		cp := rtcp.CompoundPacket{&rtcp.SenderReport{SSRC: ssrc, NTPTime: 0x0102030405060708, RTPTime: 90000,
+			PacketCount: 1, OctetCount: 100}}
+		cp = append(cp, tail(n4-28)...)
+		pkt, built = &cp, "compound"
+	case shape == "rrcompound" && n4 >= 8+16:
+		k := (n4 - 8 - 16) / 24
+		if k > 3 {
+			k = 3
 		}
-		pkt = &cp
+		rr := &rtcp.ReceiverReport{SSRC: ssrc}
+		for i := 0; i < k; i++ {
+			rr.Reports = append(rr.Reports, rtcp.ReceptionReport{SSRC: 0xC0000000 + uint32(i), FractionLost: 1,
+				TotalLost: 2, LastSequenceNumber: 1000, Jitter: 3, LastSenderReport: 4, Delay: 5})
+		}
+		cp := rtcp.CompoundPacket{rr}
+		cp = append(cp, tail(n4-8-24*k)...)
+		pkt, built = &cp, "rrcompound"
 	default:
-		data := make([]byte, n4-12)
-		rng.Read(data)
-		pkt = &rtcp.ApplicationDefined{SSRC: ssrc, Name: "VRIF", Data: data}
+		pkt = app(n4)
 	}
 	b, err := pkt.Marshal()
 	if err != nil {
-		panic(fmt.Sprintf("c18: cannot build an RTCP packet of %d bytes: %v", n4, err))
+		panic(fmt.Sprintf("c18: cannot build an RTCP packet (%s) of %d bytes: %v", shape, n4, err))
 	}
-	return pkt, len(b)
+	if len(b) != n4 {
+		panic(fmt.Sprintf("c18: RTCP packet (%s) has %d bytes instead of %d", built, len(b), n4))
+	}
+	return pkt, len(b), built
+}
+
+// c18selfcheck verifies the builders themselves: every shape yields exactly the requested
+// size (the nearest multiples of 4 for structured RTCP). A failure is a harness error.
+func c18selfcheck() (err error) {
+	defer func() {
+		if p := recover(); p != nil {
+			err = fmt.Errorf("c18 selfcheck: %v", p)
+		}
+	}()
+	rng := rand.New(rand.NewSource(7))
+	for n := 12; n <= 1500; n++ {
+		for _, sh := range c18rtpShapes {
+			pkt, built := c18rtp(n, 96, sh, uint16(n), 1, rng)
+			b, merr := pkt.Marshal()
+			if merr != nil || len(b) != n || pkt.MarshalSize() != n {
+				return fmt.Errorf("c18 selfcheck: rtp %s (built %s) n=%d: %d bytes, %v", sh, built, n, len(b), merr)
+			}
+			var back rtp.Packet
+			if uerr := back.Unmarshal(b); uerr != nil {
+				return fmt.Errorf("c18 selfcheck: rtp %s n=%d does not parse: %v", sh, n, uerr)
+			}
+			if n >= 12+12+8+1 && built != sh {
+				return fmt.Errorf("c18 selfcheck: rtp %s n=%d built as %s", sh, n, built)
+			}
+		}
+		for _, sh := range c18rtcpShapes {
+			for _, rd := range []string{"down", "up"} {
+				want := n / 4 * 4
+				if want != n && rd == "up" {
+					want += 4
+				}
+				if sh == "raw" {
+					want = n
+				}
+				pkt, sz, built := c18rtcp(n, sh, rd, rng)
+				b, merr := pkt.Marshal()
+				if merr != nil || len(b) != sz || sz != want {
+					return fmt.Errorf("c18 selfcheck: rtcp %s/%s (built %s) n=%d: %d bytes, want %d, %v", sh, rd, built, n, len(b), want, merr)
+				}
+				if sh != "raw" {
+					if _, uerr := rtcp.Unmarshal(b); uerr != nil {
+						return fmt.Errorf("c18 selfcheck: rtcp %s n=%d does not parse: %v", sh, n, uerr)
+					}
+				}
+				if n >= 44 && built != sh {
+					return fmt.Errorf("c18 selfcheck: rtcp %s n=%d built as %s", sh, n, built)
+				}
+			}
+		}
+	}
+	return nil
 }
 
 // ---- the model's prediction (PacketSize.tla), recomputed when the real plain size differs ------
@@ -475,6 +751,7 @@ type c18env struct {
 	pubs        map[string]*c18pub
 	accounted   map[*bed.Tap]int
 	seq         [2]uint16 // RTP sequence numbers, per media, shared by everything the group writes
+	mc          *c18mcast
 	st          *c18stats
 	recMu       sync.Mutex
 	lastRec     *gortsplib.ServerSession
@@ -530,6 +807,9 @@ func c18runGroup(scns []*c18scn, s *vt.Sink, st *c18stats) (trs []*vt.Trace, err
 		for _, r := range e.readers {
 			r.rd.Close()
 		}
+		if e.mc != nil {
+			e.mc.close()
+		}
 		e.bd.Close()
 	}()
 	for _, sc := range scns {
@@ -540,6 +820,221 @@ func c18runGroup(scns []*c18scn, s *vt.Sink, st *c18stats) (trs []*vt.Trace, err
 		}
 	}
 	return trs, nil
+}
+
+// ---- multicast: own server, one multicast reader, receiving-side observation ----------------------
+
+type c18mcast struct {
+	bd     *bed.Bed
+	rd     *bed.Reader
+	tap    *bed.Tap // filled by the observing sockets
+	conns  []net.PacketConn
+	copies int // datagrams observed per write (one per multicast interface the server writes on)
+}
+
+func (m *c18mcast) close() {
+	if m.rd != nil {
+		m.rd.Close()
+	}
+	for _, c := range m.conns {
+		c.Close()
+	}
+	if m.bd != nil {
+		m.bd.Close()
+	}
+}
+
+// c18discard is a packet connection that swallows what is written to it: wrapped by a
+// bed.Tap it turns the tap into a recorder of datagrams observed elsewhere.
+type c18discard struct{}
+
+func (c18discard) ReadFrom([]byte) (int, net.Addr, error)  { return 0, nil, io.EOF }
+func (c18discard) WriteTo(p []byte, _ net.Addr) (int, error) { return len(p), nil }
+func (c18discard) Close() error                              { return nil }
+func (c18discard) LocalAddr() net.Addr                       { return &net.UDPAddr{} }
+func (c18discard) SetDeadline(time.Time) error               { return nil }
+func (c18discard) SetReadDeadline(time.Time) error           { return nil }
+func (c18discard) SetWriteDeadline(time.Time) error          { return nil }
+
+// c18mcastIfaces returns the IPv4 address of every interface that is up and multicast-capable.
+func c18mcastIfaces() (ips []net.IP) {
+	intfs, _ := net.Interfaces()
+	for _, intf := range intfs {
+		if intf.Flags&net.FlagMulticast == 0 || intf.Flags&net.FlagUp == 0 {
+			continue
+		}
+		addrs, _ := intf.Addrs()
+		for _, a := range addrs {
+			if n, ok := a.(*net.IPNet); ok {
+				if ip4 := n.IP.To4(); ip4 != nil {
+					ips = append(ips, ip4)
+					break
+				}
+			}
+		}
+	}
+	return ips
+}
+
+// c18join opens a socket bound to group:port (so that it only receives datagrams sent to
+// that group) and joins the group on every multicast interface.
+func c18join(group net.IP, port int) (net.PacketConn, error) {
+	sock, err := syscall.Socket(syscall.AF_INET, syscall.SOCK_DGRAM, syscall.IPPROTO_UDP)
+	if err != nil {
+		return nil, err
+	}
+	f := os.NewFile(uintptr(sock), "c18-mcast")
+	defer f.Close() // FilePacketConn works on a duplicate
+	if err = syscall.SetsockoptInt(sock, syscall.SOL_SOCKET, syscall.SO_REUSEADDR, 1); err != nil {
+		return nil, err
+	}
+	_ = syscall.SetsockoptInt(sock, syscall.SOL_SOCKET, syscall.SO_RCVBUF, 1<<20)
+	var sa syscall.SockaddrInet4
+	sa.Port = port
+	copy(sa.Addr[:], group.To4())
+	if err = syscall.Bind(sock, &sa); err != nil {
+		return nil, err
+	}
+	joined := 0
+	for _, ip := range c18mcastIfaces() {
+		var mreq syscall.IPMreq
+		copy(mreq.Multiaddr[:], group.To4())
+		copy(mreq.Interface[:], ip)
+		if syscall.SetsockoptIPMreq(sock, syscall.IPPROTO_IP, syscall.IP_ADD_MEMBERSHIP, &mreq) == nil {
+			joined++
+		}
+	}
+	if joined == 0 {
+		return nil, fmt.Errorf("cannot join %s on any interface", group)
+	}
+	return net.FilePacketConn(f)
+}
+
+var c18mcastSeq atomic.Int64
+
+// multicast starts (once per group) a server of the group's configuration that offers
+// multicast delivery, a library client that sets the stream up with Transport:
+// RTP/AVP;multicast (RTP/SAVP when secure) and plays, and the observing sockets.
+func (e *c18env) multicast() (m *c18mcast, err error) {
+	if e.mc != nil {
+		return e.mc, nil
+	}
+	ips := c18mcastIfaces()
+	if len(ips) == 0 {
+		return nil, fmt.Errorf("c18: no multicast-capable interface: the multicast entry cannot be exercised")
+	}
+	m = &c18mcast{tap: bed.NewTap()}
+	defer func() {
+		if err != nil {
+			m.close()
+		}
+	}()
+	// a range of its own per server (servers of other groups run in parallel; other processes may
+	// use multicast too)
+	ipRange := fmt.Sprintf("239.%d.%d.0/24", 64+os.Getpid()%128, c18mcastSeq.Add(1)%256)
+	cfg := bed.ServerCfg{UDP: true, MaxPacketSize: e.max, Medias: 2, ReportPeriod: time.Hour, IP: ips[0].String()}
+	if e.secure {
+		cfg.TLS = bed.SelfSignedTLS()
+	}
+	cfg.Extra = func(sv *gortsplib.Server) {
+		sv.DisableRTCPSenderReports = true
+		sv.MulticastIPRange = ipRange
+		sv.MulticastRTPPort = bed.FreeUDPPair("0.0.0.0")
+		sv.MulticastRTCPPort = sv.MulticastRTPPort + 1
+	}
+	if m.bd, err = bed.Start(cfg); err != nil {
+		return nil, fmt.Errorf("c18: multicast server (max=%d secure=%v): %w", e.max, e.secure, err)
+	}
+	type dest struct {
+		ip    net.IP
+		ports [2]int
+	}
+	var dmu sync.Mutex
+	var dests []dest
+	m.rd, err = m.bd.NewReader(bed.ReaderCfg{Proto: "udp", Timeout: 60 * time.Second, Extra: func(c *gortsplib.Client) {
+		p := gortsplib.ProtocolUDPMulticast
+		c.Protocol = &p
+		gortsplib.VerifSetClientKnobs(c, nil, time.Hour, time.Hour, 0) // no receiver reports towards the group
+		prev := c.OnResponse
+		c.OnResponse = func(res *base.Response) {
+			if prev != nil {
+				prev(res)
+			}
+			var th headers.Transport
+			if v, ok := res.Header["Transport"]; ok && th.Unmarshal(v) == nil &&
+				th.Delivery != nil && *th.Delivery == headers.TransportDeliveryMulticast &&
+				th.Destination2 != nil && th.Ports != nil {
+				if ip := net.ParseIP(*th.Destination2); ip != nil {
+					dmu.Lock()
+					dests = append(dests, dest{ip, *th.Ports})
+					dmu.Unlock()
+				}
+			}
+		}
+	}}, "stream", func(*description.Media, format.Format, *rtp.Packet) {})
+	if err != nil {
+		return nil, fmt.Errorf("c18: multicast reader (max=%d secure=%v): %w", e.max, e.secure, err)
+	}
+	dmu.Lock()
+	ds := append([]dest(nil), dests...)
+	dmu.Unlock()
+	if len(ds) != len(m.bd.Desc.Medias) {
+		return nil, fmt.Errorf("c18: %d multicast destinations announced for %d medias", len(ds), len(m.bd.Desc.Medias))
+	}
+	rec := m.tap.PacketConn(c18discard{})
+	for _, d := range ds {
+		for _, port := range d.ports {
+			pc, jerr := c18join(d.ip, port)
+			if jerr != nil {
+				return nil, fmt.Errorf("c18: observing %s:%d: %w", d.ip, port, jerr)
+			}
+			m.conns = append(m.conns, pc)
+			go func(pc net.PacketConn, dst *net.UDPAddr) {
+				buf := make([]byte, 1<<16)
+				for {
+					n, _, rerr := pc.ReadFrom(buf)
+					if rerr != nil {
+						return
+					}
+					_, _ = rec.WriteTo(buf[:n], dst)
+				}
+			}(pc, &net.UDPAddr{IP: d.ip, Port: port})
+		}
+	}
+	if _, err = m.rd.C.Play(nil); err != nil {
+		return nil, fmt.Errorf("c18: multicast play (max=%d secure=%v): %w", e.max, e.secure, err)
+	}
+	// calibration: how many datagrams does one write produce (RTP and RTCP, both medias)?
+	rng := rand.New(rand.NewSource(1))
+	for mi, medi := range m.bd.Desc.Medias {
+		for _, kind := range []string{"rtp", "rtcp"} {
+			pre := m.tap.Len()
+			var werr error
+			if kind == "rtp" {
+				e.seq[mi]++
+				pkt, _ := c18rtp(20, uint8(96+mi), "payload", e.seq[mi], uint32(e.seq[mi])*3000, rng)
+				werr = m.bd.Stream.WritePacketRTP(medi, pkt)
+			} else {
+				werr = m.bd.Stream.WritePacketRTCP(medi, &rtcp.ReceiverReport{SSRC: 0x0BADCAFE})
+			}
+			if werr != nil {
+				return nil, fmt.Errorf("c18: multicast calibration write (%s, media %d): %w", kind, mi, werr)
+			}
+			c18wait(m.tap, pre, 1, 2*time.Second)
+			time.Sleep(30 * time.Millisecond) // further copies, if any
+			n := m.tap.Len() - pre
+			if n == 0 {
+				return nil, fmt.Errorf("c18: multicast datagrams (%s, media %d) are not observable on this host", kind, mi)
+			}
+			if m.copies != 0 && n != m.copies {
+				return nil, fmt.Errorf("c18: multicast calibration: %d copies, then %d", m.copies, n)
+			}
+			m.copies = n
+		}
+	}
+	e.accounted[m.tap] = m.tap.Len()
+	e.mc = m
+	return m, nil
 }
 
 func (e *c18env) reader(proto string) (*c18reader, error) {
@@ -661,6 +1156,12 @@ func c18wait(tap *bed.Tap, pre, expect int, d time.Duration) {
 }
 
 func (e *c18env) runScn(sc *c18scn, s *vt.Sink) (tr *vt.Trace, err error) {
+	for _, c := range sc.Cases {
+		if c.Shape == "" { // a descriptor without shapes: sample them
+			sc.Cases = c18shapeCases(sc.Cases, sc.Seed, false)
+			break
+		}
+	}
 	desc, _ := json.Marshal(sc)
 	tr = s.Begin("c18/"+sc.Entry, string(desc), "max", sc.Max, "secure", sc.Secure, "mki", sc.MKI, "transport", sc.Transport)
 	defer func() {
@@ -669,10 +1170,6 @@ func (e *c18env) runScn(sc *c18scn, s *vt.Sink) (tr *vt.Trace, err error) {
 		}
 	}()
 	rng := rand.New(rand.NewSource(sc.Seed))
-	tidx := 0
-	if sc.Transport == "tcp" {
-		tidx = 1
-	}
 	if sc.Entry == "stream" || sc.Entry == "session" {
 		protos := []string{sc.Transport}
 		if sc.Entry == "stream" {
@@ -686,30 +1183,24 @@ func (e *c18env) runScn(sc *c18scn, s *vt.Sink) (tr *vt.Trace, err error) {
 	}
 	for i, cs := range sc.Cases {
 		mi := (i / 2) % 2 // media: 0 = H264 (96), 1 = Opus (97)
-		// RTP: 0 = bare header, 1 = CSRCs, 2 = header extension + padding.
-		// RTCP: a size that is not a multiple of 4 is written EXACTLY (raw packet, variant 2) on the
-		// first transport and rounded down (variants 0 / 1) on the second; multiples of 4 rotate.
-		variant := (i/2 + tidx) % 3
-		if cs.Kind == "rtcp" && cs.Plain%4 != 0 {
-			if tidx == 0 {
-				variant = 2
-			} else {
-				variant = (i / 2) % 2
-			}
-		}
 		var tap *bed.Tap
 		expect := 1
 		var call func() error
 		var plain int
+		var shape string
 
 		var rtpPkt *rtp.Packet
 		var rtcpPkt rtcp.Packet
 		if cs.Kind == "rtp" {
 			e.seq[mi]++
-			rtpPkt = c18rtp(cs.Plain, uint8(96+mi), variant, e.seq[mi], uint32(e.seq[mi])*3000, rng)
+			rtpPkt, shape = c18rtp(cs.Plain, uint8(96+mi), cs.Shape, e.seq[mi], uint32(e.seq[mi])*3000, rng)
 			plain = rtpPkt.MarshalSize()
 		} else {
-			rtcpPkt, plain = c18rtcp(cs.Plain, variant, rng)
+			rtcpPkt, plain, shape = c18rtcp(cs.Plain, cs.Shape, cs.Round, rng)
+		}
+		e.st.addShape(cs.Kind, shape)
+		if shape != cs.Shape {
+			e.st.reshaped.Add(1)
 		}
 
 		switch sc.Entry {
@@ -739,6 +1230,18 @@ func (e *c18env) runScn(sc *c18scn, s *vt.Sink) (tr *vt.Trace, err error) {
 				}
 				medi := p.ss.AnnouncedDescription().Medias[mi]
 				call = func() error { return p.ss.WritePacketRTCP(medi, rtcpPkt) }
+			}
+		case "multicast":
+			m, merr := e.multicast()
+			if merr != nil {
+				return tr, merr
+			}
+			tap, expect = m.tap, m.copies
+			medi := m.bd.Desc.Medias[mi]
+			if rtpPkt != nil {
+				call = func() error { return m.bd.Stream.WritePacketRTP(medi, rtpPkt) }
+			} else {
+				call = func() error { return m.bd.Stream.WritePacketRTCP(medi, rtcpPkt) }
 			}
 		case "client":
 			p, perr := e.publisher(sc.Transport)
@@ -806,10 +1309,16 @@ func (e *c18env) runScn(sc *c18scn, s *vt.Sink) (tr *vt.Trace, err error) {
 		}
 		tr.Emit("write", "entry", sc.Entry, "kind", cs.Kind, "secure", sc.Secure, "max", sc.Max, "plain", plain,
 			"failed", failed, "nwire", len(recs), "maxwire", maxwire,
-			"tr", sc.Transport, "mki", sc.MKI, "req", cs.Plain, "v", variant, "medi", mi,
+			"tr", sc.Transport, "mki", sc.MKI, "req", cs.Plain, "shape", shape, "reqshape", cs.Shape, "round", cs.Round, "medi", mi,
 			"nudp", nudp, "ntcp", ntcp, "trunc", trunc, "maxwritten", maxwritten, "late", late, "latemax", lateMax, "err", errs)
 
 		e.st.writes.Add(1)
+		if sc.Entry == "multicast" {
+			e.st.mcast.Add(1)
+			if !failed && len(recs) > 0 {
+				e.st.mcastSent.Add(1)
+			}
+		}
 		if failed {
 			e.st.failed.Add(1)
 		} else {
@@ -831,8 +1340,8 @@ func (e *c18env) runScn(sc *c18scn, s *vt.Sink) (tr *vt.Trace, err error) {
 				what = "decision"
 			}
 			e.st.addDrift(fmt.Sprintf("%s/%s/secure=%v/mki=%v/%s", sc.Entry, cs.Kind, sc.Secure, sc.MKI, what),
-				fmt.Sprintf("max=%d plain=%d %s: model fits=%v wire=%d, real failed=%v nwire=%d maxwire=%d",
-					sc.Max, plain, sc.Transport, fits, wire, failed, len(recs), maxwire))
+				fmt.Sprintf("max=%d plain=%d %s %s: model fits=%v wire=%d, real failed=%v nwire=%d maxwire=%d",
+					sc.Max, plain, sc.Transport, shape, fits, wire, failed, len(recs), maxwire))
 		}
 	}
 	tr.Emit("end")
@@ -867,7 +1376,7 @@ func c18probe(sc *c18scn) (err error) {
 		}
 	}()
 	werr := p.ss.WritePacketRTP(p.ss.AnnouncedDescription().Medias[0],
-		c18rtp(100, 96, 0, 1, 3000, rand.New(rand.NewSource(1))))
+		func() *rtp.Packet { p, _ := c18rtp(100, 96, "payload", 1, 3000, rand.New(rand.NewSource(1))); return p }())
 	fmt.Printf("PROBE record_rtp: ServerSession.WritePacketRTP on a record session returned: %v\n", werr)
 	return nil
 }
